@@ -1,10 +1,10 @@
 package simharness
 
 import (
-	"math"
 	"context"
 	"errors"
 	"fmt"
+	"math"
 	"sort"
 	"strings"
 	"time"
@@ -1246,8 +1246,8 @@ type gateRec struct {
 	ret      map[int]int // ... and when the filter returned
 }
 
-func (g *gateRec) Type() el.NodeType { return g.gf.Type() }
-func (g *gateRec) Reopen() error     { return g.gf.Reopen() }
+func (g *gateRec) Type() el.NodeType               { return g.gf.Type() }
+func (g *gateRec) Reopen() error                   { return g.gf.Reopen() }
 func (g *gateRec) Close(ctx context.Context) error { return g.gf.Close(ctx) }
 func (g *gateRec) Process(ctx context.Context, e *el.Event) (*el.Event, error) {
 	gp, isG := e.Payload.(*gPayload)
